@@ -43,6 +43,7 @@ struct Mesh<P: Protocol> {
     nframes: u64,
     dead: Vec<bool>,
     ctrl_iface: u64,
+    plain: bool,
 }
 
 impl<P: Protocol> Mesh<P> {
@@ -51,6 +52,10 @@ impl<P: Protocol> Mesh<P> {
         for n in 1..=nodes {
             let mut cfg = base_config(mode_of(mode));
             cfg.switch_timeout = SWITCH_TIMEOUT;
+            if stream % 4 == 3 {
+                // every fourth mesh runs unencrypted sessions ("plain" enabled on all nodes)
+                cfg.crypto.algorithms = vec!["plain".into()];
+            }
             if mode == "router" {
                 cfg.claims = router_claims(n).iter().map(|(b, l)| format!("10.0.0.{}/{}", b << 4, 24 + l)).collect();
             }
@@ -70,7 +75,7 @@ impl<P: Protocol> Mesh<P> {
         if !sim.full_mesh() {
             eprintln!("warning: mesh not fully connected after setup");
         }
-        Mesh { sim, data: HashMap::new(), nframes: 0, dead: vec![false; nodes], ctrl_iface: 0 }
+        Mesh { sim, data: HashMap::new(), nframes: 0, dead: vec![false; nodes], ctrl_iface: 0, plain: stream % 4 == 3 }
     }
 
     /// delivers every queued datagram that is not a payload datagram of a frame we injected (control plane)
@@ -231,14 +236,32 @@ pub fn run_random(nruns: u64, len: u64, out_path: &str, mode: &str, nodes: usize
         } else {
             let mut m: Mesh<Frame> = Mesh::new(mode, nodes, 600 + run);
             let mut left = 0;
+            // a "hot" conversation per run: two hosts in one VLAN talking all the time (re-learning, expiry while active)
+            let hot = (VIDS[rng.gen_range(0..VIDS.len())], rng.gen_range(1..=3u8), rng.gen_range(1..=3u8), rng.gen_range(0..nodes), rng.gen_range(0..nodes));
             for _ in 0..len {
                 steps += 1;
                 let x = rng.gen_range(0..100);
                 let alive: Vec<usize> = (0..nodes).filter(|i| !m.dead[*i]).collect();
                 if x < 45 {
-                    let n = alive[rng.gen_range(0..alive.len())];
-                    let (sm, dm) = (rng.gen_range(1..=3u8), rng.gen_range(1..=3u8));
-                    let vid = VIDS[rng.gen_range(0..VIDS.len())];
+                    let mut n = alive[rng.gen_range(0..alive.len())];
+                    let (mut sm, mut dm) = (rng.gen_range(1..=3u8), rng.gen_range(1..=3u8));
+                    let mut vid = VIDS[rng.gen_range(0..VIDS.len())];
+                    if rng.gen_bool(0.55) {
+                        vid = hot.0;
+                        if rng.gen_bool(0.5) {
+                            sm = hot.1;
+                            dm = hot.2;
+                            if alive.contains(&hot.3) {
+                                n = hot.3;
+                            }
+                        } else {
+                            sm = hot.2;
+                            dm = hot.1;
+                            if alive.contains(&hot.4) {
+                                n = hot.4;
+                            }
+                        }
+                    }
                     let fid = m.nframes + 1;
                     let (f, tci) = eth(sm, vid, dm, &mut rng, fid);
                     m.iface(n, f, json!([tci, sm]), json!([tci, dm]), &mut t);
@@ -248,7 +271,9 @@ pub fn run_random(nruns: u64, len: u64, out_path: &str, mode: &str, nodes: usize
                         let (fid, to) = fl[rng.gen_range(0..fl.len())];
                         m.recv(fid, to, &mut t);
                     }
-                } else if x < 99 || left > 0 || alive.len() <= 2 {
+                } else if x < 99 || left > 0 || alive.len() <= 2 || m.plain {
+                    // (in an unencrypted session the close message, type 0xff, is taken for a handshake datagram and
+                    //  ignored, so a leaving node is only forgotten by time-out: no leave events in plain meshes)
                     let st = SWITCH_TIMEOUT as u64;
                     let s = [1u64, 1, 2, st - 1, st, st + 1][rng.gen_range(0..6)];
                     m.tick(s, &mut t);
